@@ -25,6 +25,7 @@ EXPECT = {
     "variable names must be declared": ["C02"],
     "New and Append refuse": ["C02"],
     "evaluation failed cannot be saved": ["C18"],
+    "integer literals are base 10": ["C14"],
 }
 def sh(cmd, **kw):
     return subprocess.run(cmd, shell=True, capture_output=True, text=True, **kw)
